@@ -9,4 +9,5 @@ Chk(name, ok) == ok \/ PrintT(<<"FAIL", Recs[i].id, name>>)
 JInv == /\ Chk("C20_Returns", C20_Returns(Recs[i]))
         /\ Chk("C20_Usable", C20_Usable(Recs[i]))
         /\ Chk("C20_NoLeftover", C20_NoLeftover(Recs[i]))
+        /\ Chk("C20_NotRegistered", C20_NotRegistered(Recs[i]))
 =============================================================================
